@@ -6,6 +6,12 @@ props = [json.loads(l) for l in open(os.path.join(V, 'properties.jsonl'))]
 
 # id -> (level category, technique, level text, level note, design ref)
 CLAIMED = {
+ 'C05': ('exploration', 'model-based property-based testing: real State vs a recomputation from the whole round history',
+         'Synthetic histories (up to 3000 rounds; complete / awaited / failed / skipped probes, RTT 0..3 s incl. clock steps, first-ttl 1..254, sample limits 0..256) and rounds published by the real strategy over simulated networks are applied to State; every getter of every hop is compared with sums, min/max, two-pass variance and an explicit newest-first window; the conservation laws are asserted separately.',
+         'jitter figures are recomputed by their defining recurrence; float tolerances 1e-9 / 1e-6 (stddev).', 'DESIGN.md 3/C05'),
+ 'C15': ('exploration', 'model-based property-based testing of flow attribution on the real State',
+         'Synthetic histories with colliding paths, unknown hops, failed/skipped probes, first-ttl > 1 and max-flows 1..64: after every round dense ids, bound, monotone extension of every flow, positional agreement of the attributed flow, behaviour at a full registry; at the end every flow equals the C05 model over exactly the rounds observed to be attributed to it.',
+         'attribution is observed through round_count deltas; a round is required to be attributed at a full registry only if it agrees with a registered flow on every address seen.', 'DESIGN.md 3/C15'),
  'C04': ('exploration', 'property-based testing + enumerated field-value x length grids through the real receive path and every packet view; libFuzzer campaign in the thorough tier',
          'Structure-aware corruption of genuine responses captured from simulated runs (named length/offset/type fields, truncation) delivered to Channel::recv_probe and into a running Strategy; complete grids of every length/offset field value against every truncation length for 20 configurations; every read accessor / iterator / Debug of all 19 packet views over value x length grids and random buffers. Overflow checks on, panics caught; slices must stay inside the buffer and iterators bounded.',
          'debug assertions off (as shipped); setters with oversized payloads are caller errors.', 'DESIGN.md 3/C04'),
